@@ -30,12 +30,16 @@ SbSet == {<<0, 0, 0>>, <<1, 1, 1>>, <<1, 0, 0>>}
 \* only tuples that pass the header guards reach the symbol machine; the guards themselves are enumerated by HeaderRows
 Params == {p \in {<<nv, nf, nss, ev, sb>> : nv \in UNION {NvSet(x) : x \in NssSet}, nf \in NfSet, nss \in NssSet, ev \in {e \in EvSet : EvAsc(e)}, sb \in SbSet} :
               Header(p[1], p[2], Len(syms), p[3], Len(p[4])) = "ok"}
+\* seam bit patterns served to the attribute connectivity decoder (bits beyond the list read as 0): none, all, alternating both ways, one seam at a time
+SeamPats == << <<>>, <<1, 1, 1, 1, 1, 1, 1, 1, 1, 1, 1, 1>>, <<0, 1, 0, 1, 0, 1, 0, 1, 0, 1, 0, 1>>, <<1, 0, 1, 0, 1, 0, 1, 0, 1, 0, 1, 0>>,
+              <<1>>, <<0, 1>>, <<0, 0, 1>>, <<0, 0, 0, 1>>, <<0, 0, 0, 0, 1>>, <<1, 1, 0, 0, 1, 1>> >>
 RECURSIVE StrR(_)
 StrR(s) == IF s = <<>> THEN "" ELSE s[1] \o StrR(Tail(s))
 Row(p) == LET r == Decode(syms, p[1], p[2], p[3], p[4], p[5])  o == Order(r, p[2])  o2 == OrderPD(r, p[2]) IN
           [s |-> StrR(syms), nv |-> p[1], nf |-> p[2], nss |-> p[3], ev |-> p[4], sb |-> p[5], out |-> r.out, np |-> r.np, faces |-> r.faces,
            trav |-> o.trav, vidx |-> o.vidx, trav2 |-> o2.trav, vidx2 |-> o2.vidx, ppos |-> IF p[2] <= 6 THEN ParaPos(r, p[2], -50, 50) ELSE <<>>,
-           cm |-> IF p[2] <= 6 /\ r.out = "acc" /\ o.trav = "" THEN [pat \in 1..3 |-> CmPos(r, p[2], pat - 1, -50, 50)] ELSE <<>>]
+           cm |-> IF p[2] <= 6 /\ r.out = "acc" /\ o.trav = "" THEN [pat \in 1..3 |-> CmPos(r, p[2], pat - 1, -50, 50)] ELSE <<>>,
+           sm |-> IF p[2] <= 6 /\ r.out = "acc" /\ o.trav = "" THEN [k \in 1..Len(SeamPats) |-> [Seamed(r, p[2], SeamPats[k]) EXCEPT !.used = @] @@ [bits |-> SeamPats[k]]] ELSE <<>>]
 \* a string that does not start with E is refused at its first symbol whatever the parameters are: one tuple stands for all
 PSet == IF syms[1] = "E" \/ Params = {} THEN Params ELSE {CHOOSE p \in Params : TRUE}
 EmitRows == (Emit /\ Len(syms) >= 1) => \A p \in PSet : PrintT(ToJson(Row(p)))
